@@ -15,8 +15,39 @@ repeated variables must bind equal subterms):
 Termination of the net traversal is observed with a logical line-count bound on
 ``dask.rewrite._match``.
 
-Calibration: see the end of this docstring block (filled in from the runs on the
-unchanged tree).
+Calibration (unchanged tree, seeds 0,1,2,7,12345 quick + one thorough run)
+---------------------------------------------------------------------------
+Every alarm on the unchanged tree has the input feature ``mixed-arity`` (some
+function occurs with two different argument counts in the rule set and/or the
+term); nothing fires in the ``fixed-arity`` world (about 30 % of the cases, all
+repeated-variable and overlapping-rule situations included).  Two mechanisms,
+both consequences of the net storing a flattened pre-order string without
+argument counts (findings_proposed/C51.md):
+
+* Genuine defect / documented behaviour (DESIGN 6 #11): a pattern and a term
+  with the same pre-order but different nesting match, e.g. rule
+  ``(f, (g, 'x'), 'y')`` and term ``(f, (g, 2, 1))`` yield ``{'x': 2, 'y': 1}``;
+  the RuleSet docstring shows exactly this.  Labels
+  ``iter_matches:mixed-arity:spurious-match:same-preorder-different-nesting`` and
+  ``rewrite-top_level:mixed-arity:applied-spurious-match:same-preorder-different-nesting``.
+* Genuine defect: when the term ends while the net still offers a variable
+  edge (``(f, 'c')`` against the rule ``(f, 'x', 'x')``), ``_match`` binds the END
+  token and ``Traverser.skip`` pops from an empty deque: ``IndexError`` instead of
+  "no match".  Labels ``iter_matches:mixed-arity:IndexError@rewrite.py:skip`` and
+  ``rewrite-top_level:mixed-arity:IndexError@rewrite.py:skip``.  A one-line guard
+  removes it (repository tests and doctests still pass on a scratch copy).
+* With an arity-aware net on a scratch copy (edges keyed by (head, nargs) plus
+  the END guard) the quick run holds on all 380 980 cases, i.e. there is no third
+  mechanism; that change contradicts ``test_RuleSet`` and the RuleSet docstring,
+  so it is offered only as a sketch.
+* No false alarm was observed.  Label attribution corrected once: when
+  ``iter_matches`` raised after having yielded something, the partial list was
+  dropped and a top-level rewrite that had applied the first (spurious) match
+  was reported as ``changed-although-no-rule-matches``; yielded pairs are now
+  collected one by one so that the rewrite result is attributed to the spurious
+  match it came from.
+* Terms are rebuilt with fresh tuple objects (``_fresh``) so that a repeated
+  variable is decided by equality, not identity, of the bound subterms.
 """
 from __future__ import annotations
 
@@ -52,7 +83,19 @@ CLAIM = ("Every iter_matches / top-level rewrite call observed (all terms to dep
          "rule.  Held means: no counterexample among the executions observed, except the mechanisms listed as known findings.")
 TECHNIQUE = "runtime monitoring: reference-model oracle (brute-force structural matcher) on every call + step bound on the net traversal"
 
-PENDING = {}
+PENDING = {
+    "iter_matches:mixed-arity:spurious-match:same-preorder-different-nesting":
+        "the net flattens terms: (f, (g, 'x'), 'y') matches (f, (g, 2, 1)) with x=2, y=1 (DESIGN 6 #11, shown in the "
+        "RuleSet docstring)",
+    "rewrite-top_level:mixed-arity:applied-spurious-match:same-preorder-different-nesting":
+        "same mechanism seen through rewrite(strategy='top_level'): a term no rule matches is rewritten with the "
+        "spurious match",
+    "iter_matches:mixed-arity:IndexError@rewrite.py:skip":
+        "term ends while the net still has a variable edge, e.g. (f, 'c') against rule (f, 'x', 'x'): "
+        "IndexError('pop from an empty deque') instead of no match",
+    "rewrite-top_level:mixed-arity:IndexError@rewrite.py:skip":
+        "same IndexError through rewrite(strategy='top_level')",
+}
 
 VARS = ("x", "y")
 CONSTS = (1, 2, "c")
